@@ -21,6 +21,7 @@ import vlib
 from vlib import Hit
 
 LEVEL = 'proof'
+MAX_REPORTED = 10      # distinct failing inputs written as replays per run (the rest is counted in the evidence)
 
 CASE_HEADER = (vlib.HEADER_CASES +
                'From PA Require Import base.QClose model.DistrRepr model.DistrReprQ.\n'
@@ -491,8 +492,9 @@ def run(ctx):
     rng = np.random.default_rng(ctx.seed)
     warnings.simplefilter('ignore')
     try:
-        from translate import vmi_inv
-        vmi_inv.generate()          # model/DistrFit.v (used by the theorems) imports gen/VmiInv.v
+        from translate import vmi_inv, vmi_index
+        vmi_inv.generate()
+        vmi_index.generate()          # model/DistrFit.v (used by the theorems) imports gen/VmiInv.v
         trans_err = None
     except Exception as e:     # noqa
         trans_err = '%s: %s' % (type(e).__name__, e)
@@ -512,7 +514,7 @@ def run(ctx):
     mult = 3 if broken else 1
     h1, e1, d1 = search_repr(ctx, rng, (180 if ctx.quick else 1800) * mult)
     h2, e2, d2, samples = search_invariance(ctx, rng, (350 if ctx.quick else 3500) * mult)
-    h3, e3, d3 = search_scale(ctx, rng, (250 if ctx.quick else 2500) * mult)
+    h3, e3, d3 = search_scale(ctx, rng, (150 if ctx.quick else 2000) * mult)
     h2 = h2 + h3
     e2, d2 = e2 + e3, d2 + d3
     ctx.cov.update(evaluations=e1 + e2 + n_cases, distinct_nontrivial=d1 + d2,
@@ -531,6 +533,9 @@ def run(ctx):
         if (h.key, h.clause) in seen:
             continue
         seen.add((h.key, h.clause))
+        if new >= MAX_REPORTED:
+            ctx.cov['hits_not_reported'] = ctx.cov.get('hits_not_reported', 0) + 1
+            continue
         if ctx.report_hit(h):
             new += 1
     if trans_err and new == 0:
@@ -551,7 +556,8 @@ def run(ctx):
         'numpy.linalg.inv of the Legendre coefficient matrix is modelled by the exact rational inverse (tolerance 2^-30)',
         'mirror LR (both parities), mirror TB (both parities: C15_mirror_tb, odd coefficients change sign), weight scaling '
         '(C15_weights_scale), zero-weight pixels and origin spellings are theorems on the executable model; the sign/scale '
-        'theorems are for N <= 3 angular terms at radii with non-zero Hankel determinant; rmax prefix is a theorem for the '
-        'nearest method with even orders (C15_rmax_prefix_partial), swept numerically for linear / odd orders',
+        'theorems are for N <= 3 angular terms at radii with non-zero Hankel determinant; rmax prefix (C15_rmax_prefix: both '
+        'methods, both parities, every N) and image scaling (C15_image_scale_cos, C15_harmonics_scale, C15_Ibeta_scale) have no '
+        'conditioning hypothesis',
         'well-conditioned radii: Hankel condition number <= 1e8',
     ]
